@@ -177,15 +177,14 @@ def main(tier, seed):
     dec.obligations(3, 0)
     if badm:
         for i in badm[:20]:
-            dec.report(dict(kind='control-model-differs-from-cell', theorem='Corr.CorrFsm.model_matches (tie of Model.Fsm to the code)',
-                            **cells[i][1]), no_input=True)
+            dec.report(dict(cells[i][1], kind='control-model-differs-from-cell', theorem='Corr.CorrFsm.model_matches (tie of Model.Fsm to the code)'), no_input=True)
     elif badm == []:
         cov['discharged'] += 1
     if bad is None or comp is None:
         dec.report(dict(kind='cells-file-broken', detail=out[-2000:], theorem='Cells.v (generated)'), no_input=True)
     else:
         for i in bad:
-            dec.report(dict(kind='cell', **cells[i][1]))
+            dec.report(dict(cells[i][1], kind='cell'))
         if comp:
             dec.report(dict(kind='table-incomplete', theorem='complete cells'), no_input=True)
         if not bad and not comp:
